@@ -22,7 +22,7 @@ def _forcing_dir():
         import tempfile, atexit, shutil
         d = tempfile.mkdtemp(prefix="ladimverif_c07_")
         atexit.register(shutil.rmtree, d, ignore_errors=True)
-        lab.make_grid_forcing(os.path.join(d, "forcing.nc"), [-200000, 0, 200000])
+        lab.make_grid_forcing(os.path.join(d, "forcing.nc"), [-2000000, 0, 2000000])
         _worker.update(pid=pid, dir=d)
     return _worker["dir"]
 
@@ -36,9 +36,20 @@ def second_release_step(nsteps):
     return 2 if nsteps > 2 else None
 
 
+def spelled(seconds, how):
+    """the same period written as a number of seconds, as [value, unit] or as an ISO 8601 duration"""
+    if how == 1:
+        return [seconds // 3600, "h"] if seconds % 3600 == 0 else ([seconds // 60, "m"] if seconds % 60 == 0 else [seconds, "s"])
+    if how == 2:
+        h, m, sec = seconds // 3600, (seconds // 60) % 60, seconds % 60
+        return "PT" + (f"{h}H" if h else "") + (f"{m}M" if m else "") + (f"{sec}S" if sec or not (h or m) else "")
+    return seconds
+
+
 def run_case(c):
     use_repo()
     fd = _forcing_dir()
+    DT = c["dt"]
     sg = -1 if c["rev"] else 1
     start = 0
     stop = sg * (c["nsteps"] * DT + c["resid"])
@@ -49,7 +60,7 @@ def run_case(c):
         if r2 is not None:
             rows.append(dict(release_time=sg * r2 * DT, X=6.5, Y=5.25, Z=1.0, mult=1))
         lab.write_release(d / "release.rls", rows)
-        conf = lab.base_conf(d, start, stop, DT, c["period"] * DT, os.path.join(fd, "forcing.nc"),
+        conf = lab.base_conf(d, start, stop, spelled(DT, c["spell"]), spelled(c["period"] * DT, c["spell"]), os.path.join(fd, "forcing.nc"),
                              reference=lab.tstr(-EPOCH_OFF) if c.get("epoch") else None,
                              reversed_=c["rev"], numrec=c["numrec"], layout=c["layout"],
                              pvars=dict(release_time="time") if c["pvars"] else None,
@@ -82,6 +93,7 @@ def run_case(c):
 
 
 def model_request(c):
+    DT = c["dt"]
     sg = -1 if c["rev"] else 1
     ref_off = (c["nsteps"] * DT + c["resid"]) if c["rev"] else 0   # reference = min(start, stop)
     if c.get("epoch"):
@@ -161,8 +173,11 @@ def cases(ctx: Ctx):
                             k += 1
                             if not ctx.thorough and (layout, rev, pv) != ("sparse", False, True) and k % 3:
                                 continue
-                            resid = 0 if k % 4 else DT // 2
-                            out.append(dict(nsteps=ns, period=p, numrec=nr, layout=layout, rev=rev, pvars=pv,
+                            # every sixth case: a time step of half a day (periods of a day and more), periods spelled
+                            # as [value, unit] or as an ISO duration
+                            dt = DT * 72 if k % 6 == 1 else DT
+                            resid = 0 if k % 4 else dt // 2
+                            out.append(dict(nsteps=ns, period=p, numrec=nr, layout=layout, rev=rev, pvars=pv, dt=dt, spell=[0, 2, 1][k % 3] if k % 6 == 1 or k % 5 == 0 else 0,
                                             resid=resid, outname=names[k % 3] if nr else "out.nc", late=bool(k % 5 == 3), epoch=bool(k % 7 == 2)))
     return out
 
@@ -174,7 +189,7 @@ def run(ctx: Ctx):
     want = driver([model_request(c) for c in cs])
     for c, g, w in zip(cs, got, want):
         nrec = -(-c["nsteps"] // c["period"])
-        ctx.case("schedule", [c[k] for k in ("nsteps", "period", "numrec", "layout", "rev", "pvars", "resid", "outname")],
+        ctx.case("schedule", [c[k] for k in ("nsteps", "period", "numrec", "layout", "rev", "pvars", "resid", "outname", "dt", "spell")],
                  sample=dict(case=c, model_files=[dict(name=f["name"], records=len(f["time"])) for f in w.get("files", [])]),
                  nontrivial=nrec >= 1)
         ctx.count("residue:" + ("multiple" if c["nsteps"] % c["period"] == 0 else "non-multiple"))
@@ -189,6 +204,7 @@ def run(ctx: Ctx):
             # the statement itself, without the model: one record for each output time
             # start + k*period in [start, stop)
             sg = -1 if c["rev"] else 1
+            DT = c["dt"]
             ref_off = EPOCH_OFF if c.get("epoch") else ((c["nsteps"] * DT + c["resid"]) if c["rev"] else 0)
             expect = [float(sg * k_ * c["period"] * DT + ref_off) for k_ in range(0, c["nsteps"] + 2)
                       if k_ * c["period"] * DT < c["nsteps"] * DT + c["resid"]]
